@@ -125,6 +125,49 @@ theorem tie_sem_no_package_state :
     -- fx: only the two exported error aliases (values of `context`, assigned nowhere in the file: `fxCapturedWrites = []`)
     Extracted.C04.fxPackageVars = ["ErrCanceled = context.Canceled", "ErrTimeout = context.DeadlineExceeded"] := by decide
 
+/-! ### c04glue: the zrpc configuration glue (round 5c) -/
+
+/-- zrpc/server.go `setupUnaryInterceptors`: guard `c.Timeout > 0`, unit (ms), and the method table forwarded whole -/
+theorem tie_sem_srvGlue (confMs : Int) (mts : List (Nat × Int)) :
+    Extracted.C04.srvGlueTimeoutIcpt confMs mts = srvGlueIcpt confMs mts := by
+  unfold Extracted.C04.srvGlueTimeoutIcpt srvGlueIcpt
+  by_cases h : confMs > 0 <;> simp [h]
+
+/-- zrpc/internal/client.go `buildUnaryInterceptors`: installed exactly under `middlewares.Timeout`, with the timeout it was
+given — for EVERY timeout, `≤ 0` included (seeded C04-9: `&& timeout > 0`) -/
+theorem tie_sem_cliGlueIcpt (mw : Bool) (timeout : Int) :
+    Extracted.C04.cliGlueTimeoutIcpt mw timeout = cliGlueIcpt mw timeout := by
+  unfold Extracted.C04.cliGlueTimeoutIcpt cliGlueIcpt; rfl
+
+/-- zrpc/client.go `NewClient`: the configured timeout (if positive, in ms) goes IN FRONT of the caller's options -/
+theorem tie_sem_cliGlueConfOpts (confMs : Int) (options : List (Option Int)) (other : Nat → Bool) :
+    Extracted.C04.cliGlueConfOpts confMs options other = cliGlueConfOpts confMs options other := by
+  unfold Extracted.C04.cliGlueConfOpts cliGlueConfOpts
+  by_cases h : confMs > 0 <;> simp [h]
+
+/-- `WithTimeout(t)` stores `t`; `buildDialOptions` applies the options in order on a zero `ClientOptions` and hands
+`cliOpts.Timeout` to `buildUnaryInterceptors` -/
+theorem tie_sem_cliGlueDial (opts : List (Option Int)) :
+    (∀ t o, Extracted.C04.cliGlueApplyOpt t o = applyClientOpt t o) ∧
+    Extracted.C04.cliGlueDialTimeout opts = cliGlueDialTimeout opts := by
+  have h : ∀ t o, Extracted.C04.cliGlueApplyOpt t o = applyClientOpt t o := by
+    intro t o; cases o <;> rfl
+  refine ⟨h, ?_⟩
+  unfold Extracted.C04.cliGlueDialTimeout cliGlueDialTimeout
+  have : (fun cliOpts_Timeout opt => Extracted.C04.cliGlueApplyOpt cliOpts_Timeout opt) = applyClientOpt := by
+    funext t o; exact h t o
+  simp [this]
+
+/-- the delegations between them forward the option list whole: internal.NewClient puts the balancer option in front,
+`dial` hands `opts...` to `buildDialOptions` (model: `none :: …` in `cliConfigDeadline`) -/
+theorem tie_cliGlueForwarding :
+    Extracted.C04.zrpcCliInternalNew = ["opts = append([]ClientOption{balancerOpt}, opts...)", "err := cli.dial(target, opts...)"] ∧
+    Extracted.C04.zrpcCliDial = ["options := c.buildDialOptions(opts...)", "conn, err := grpc.DialContext(timeCtx, server, options...)"] := by
+  decide
+
+example : Extracted.C04.cliGlueDialTimeout (none :: Extracted.C04.cliGlueConfOpts 2000 [none, some 7, none] (fun _ => true)) = 7 := by decide
+example : Extracted.C04.cliGlueTimeoutIcpt true 0 = some 0 := by decide
+
 example : Extracted.C04.srvHandlerCtx 2000 [(1, 120000), (0, 7), (1, 180000)] (some 500000) 10 1 = some 180010 := by decide
 example : Extracted.C04.cliInvokerCtx 60000 (some 20500) 10 [none, some 15000] = some 15010 := by decide
 example : Extracted.C04.fxSelectCtx 50 [some 10, some 700] 100 = some 150 := by decide
